@@ -64,8 +64,6 @@ def check(run, model, tier):
         if f is None:
             raise AnalysisError('ActiveObject.%s not found' % nm)
         g = cfg_of(f)
-        tests = [t for t in g.nodes if t.kind == 'test' and 'period' in norm(t.ast) and 'None' in norm(t.ast)]
-        run.inst('LOOPS.post-path', f, 'untimed branch selected by `period is None`', len(tests) == 1, 'untimed/timed selector not found', obligation=True)
         loops = g.loop_heads()
         run.inst('LOOPS.post-path', f, 'no loop in %s' % nm, not loops, 'loop in the post method', obligation=True)
     # quiescence needs the consumer to survive surplus wake-up tokens (racing posters produce them): it ends itself only for the stop item / a stopped fabric
